@@ -49,25 +49,28 @@ def make_case(idx):
         a = prefix + '@r'
         b = prefix + c + moves + c + '\n'
     elif variant == 'junk':
-        # an operator followed by a key that is not a motion does nothing, is recorded as the last command all the same
-        # (neatvi repeats the last command of the repeatable classes, whatever it did), and '.' then repeats exactly it
+        # an operator followed by a key that is not a motion is no command at all; the change before it stays the one '.' repeats
         junk = R.choice(['dx', 'cJ\x1b', 'dp', '2dx', '"adP', 'yx', '>x', 'd~', 'dX', 'cD\x1b', 'g~x', 'dJ', '<p'])
-        a = prefix + c + moves + junk + '.'
-        b = prefix + c + moves + junk + junk
-    if variant in ('longmacro', 'junk'):
         pass
+    # right after the first c register '.' is copied to a file (through a pipe and back): c counts as a change only if it holds exactly c's keys
+    c1 = c + '\x1b:rx . tee dot1\n'
+    if variant == 'longmacro':
+        pass
+    elif variant == 'junk':
+        a = prefix + c1 + moves + junk + '.'
+        b = prefix + c1 + moves + junk + c
     elif variant == 'dot':
-        a = prefix + c + moves + '.'
-        b = prefix + c + moves + c
+        a = prefix + c1 + moves + '.'
+        b = prefix + c1 + moves + c
     elif variant == 'ndot':
         n = R.choice([2, 3, 5])
-        a = prefix + c + moves + '%d.' % n
-        b = prefix + c + moves + c * n
+        a = prefix + c1 + moves + '%d.' % n
+        b = prefix + c1 + moves + c * n
     elif variant == 'bigdot':
         n = R.choice([50, 200, 4096 // max(1, len(c.encode())) + R.choice([-1, 0, 1, 30])])
         n = max(2, min(n, 1500))
-        a = prefix + c + moves + '%d.' % n
-        b = prefix + c + moves + c * n
+        a = prefix + c1 + moves + '%d.' % n
+        b = prefix + c1 + moves + c * n
     elif variant == 'macro':
         # register r holds one or several commands; @r must equal typing them (register text ends with a newline)
         body = c + ''.join(change_cmd(R, kind)[0] if R.random() < 0.5 else gen.vi_motion(R) for _ in range(R.randint(0, 2)))
@@ -81,8 +84,8 @@ def make_case(idx):
         tail = R.choice(['x', 'j', 'w', 'dd', 'ix\x1b', '~'])
         body = '.' + tail
         regfile = ('rs r\n' + body + '\n.\n').encode()
-        a = prefix + c + moves + '@r'
-        b = prefix + c + moves + c + tail + '\n'
+        a = prefix + c1 + moves + '@r'
+        b = prefix + c1 + moves + c + tail + '\n'
     tail = b'\x1b' + GRABDOT + ('i' + MARK + '\x1b').encode() + REVEAL + b':w! out\n'
     return {'lines': lines, 'a': a.encode() + tail, 'b': b.encode() + tail, 'c': c, 'cls': cls, 'variant': variant, 'regfile': regfile, 'rfile': rfile, 'idx': idx}
 
@@ -95,15 +98,16 @@ def run_one(vi, case, keys):
     envx = {'EXINIT': 'so regs'}
     r, d = common.run_vi(vi, keys, files=files, timeout=90, envx=envx)
     out = common.readf(d, 'out')
+    dot1 = common.readf(d, 'dot1')
     common.rmcase(d)
-    return r, out
+    return r, out, dot1
 
 
 def run_case(args):
     vi, idx = args
     case = make_case(idx)
-    ra, oa = run_one(vi, case, case['a'])
-    rb, ob = run_one(vi, case, case['b'])
+    ra, oa, da = run_one(vi, case, case['a'])
+    rb, ob, db = run_one(vi, case, case['b'])
     wit = {'index': idx, 'lines': case['lines'], 'variant': case['variant'], 'change': case['c'], 'keys_A': case['a'], 'keys_B': case['b'], 'register_r': case['regfile']}
     for r in (ra, rb):
         rep = common.san_report(r)
@@ -115,7 +119,9 @@ def run_case(args):
         # run B reached the final :w, run A (same keys but for the repeat) did not: the repeat left the editor in another state
         return ('repeat:%s' % case['variant'], 'variant %s, change %r: run A never executed the final :w (run B did)' % (case['variant'], case['c'][:80]), wit, case)
     orig = gen.buf_bytes(case['lines'])
-    if case['variant'] not in ('macro', 'junk'):
+    if case['variant'] in ('dot', 'ndot', 'bigdot', 'macro2', 'junk') and not (da == db == case['c'].encode()):
+        return ('ok-trivial', None, None, case)      # the first c was not taken as one command (failed motion: the rest of its keys ran on their own)
+    if case['variant'] != 'macro':
         # the change must have been taken as ONE repeatable command: register '.' (revealed at the end of run B) holds exactly its keys
         parts = ob.split(DOTSENT + b'\n')
         dot = parts[1][:-1] if len(parts) >= 3 else None
